@@ -60,7 +60,7 @@ def vecInsert {α : Type} (l : List α) (i : Nat) (x : α) : Option (List α) :=
 
 /-- `Vec::retain(|_| { let keep = keep(r, c); if c < columns - 1 { c += 1 } else { r += 1; c = 0 }; keep })`
     started with the counters at `(r, c)` — the loop shared by `remove_row`, `remove_column` and
-    `retain_mut` (mod.rs:421-430, 449-458, 612-621). -/
+    `retain_mut` (mod.rs:434-443, 467-476, 660-669). -/
 def retainRC {α : Type} (columns : Nat) (keep : Nat → Nat → Bool) : List α → Nat → Nat → List α
   | [], _, _ => []
   | x :: xs, r, c =>
@@ -69,7 +69,7 @@ def retainRC {α : Type} (columns : Nat) (keep : Nat → Nat → Bool) : List α
     if keep r c then x :: rest else rest
 
 /-- the accepted indexes among `0..n`, counted by the `for i in 0..n { if accepts(i) { accepted += 1 } }`
-    loops of `retain_mut` (mod.rs:625-642) -/
+    loops of `retain_mut` (mod.rs:631-648) -/
 def countAccepted (s : Slice) (n : Nat) : Nat :=
   (List.range n).foldl (fun accepted i => if s.accepts i then accepted + 1 else accepted) 0
 
@@ -88,7 +88,7 @@ structure Res (α : Type) where
   panic : Option PanicKind
   deriving Repr, DecidableEq
 
-/-! ### element access (mod.rs:1201-1213, 370-376) -/
+/-! ### element access (mod.rs:1217-1229 `get`, 374-380 `set`; line numbers: /repo at the fix commits) -/
 
 /-- `Matrix::get`: two asserts, then `self.data[index].clone()` -/
 def getP (m : Matrix α) (row column : Nat) : Outcome α :=
@@ -110,7 +110,7 @@ def set (m : Matrix α) (row column : Nat) (value : α) : Res α :=
     else ⟨m, some .explicit⟩
   else ⟨m, some .explicit⟩
 
-/-! ### remove_row / remove_column (mod.rs:415-460, with fix E-01) -/
+/-! ### remove_row / remove_column (mod.rs:423-478, with fix E-01) -/
 
 /-- `remove_row`: `assert!(rows > 1)`, (fix E-01) `assert!(row < rows)`, retain, `rows -= 1` -/
 def removeRow (m : Matrix α) (row : Nat) : Res α :=
@@ -131,7 +131,7 @@ def removeColumn (m : Matrix α) (column : Nat) : Res α :=
     else ⟨m, some .explicit⟩
   else ⟨m, some .explicit⟩
 
-/-! ### insert_row / insert_row_with (mod.rs:1345-1404, with fix E-02) -/
+/-! ### insert_row / insert_row_with (mod.rs:1361-1423, with fix E-02) -/
 
 /-- `for column in 0..columns { self.data.insert(self.get_index(row, column), value.clone()) }` -/
 def insertRowLoop (columns row : Nat) (value : α) : List Nat → List α → List α × Option PanicKind
@@ -170,7 +170,7 @@ def insertRowWith (m : Matrix α) (row : Nat) (values : List α) : Res α :=
     else ⟨m, some .explicit⟩
   else ⟨m, some .explicit⟩
 
-/-! ### insert_column / insert_column_with (mod.rs:1416-1477, with fix E-04) -/
+/-! ### insert_column / insert_column_with (mod.rs:1435-1498, with fix E-04) -/
 
 /-- `for row in (0..rows).rev() { self.data.insert(self.get_index(row, column), value.clone()) }`;
     the list argument is the reversed range. -/
@@ -215,7 +215,7 @@ def insertColumnWith (m : Matrix α) (column : Nat) (values : List α) : Res α 
     else ⟨m, some .explicit⟩
   else ⟨m, some .explicit⟩
 
-/-! ### retain_mut / retain (mod.rs:607-662, 1483-1487, with fix E-03) -/
+/-! ### retain_mut / retain (mod.rs:625-680, 1504-1508, with fix E-03) -/
 
 /-- `retain_mut` after fix E-03: the remaining row and column counts are computed and asserted
     to be positive **before** the data is filtered. -/
@@ -230,7 +230,7 @@ def retainMut (m : Matrix α) (rows columns : Slice) : Res α :=
   else ⟨m, some .explicit⟩
 
 /-- `Clone for Matrix` = `self.map(|e| e)` = `from_flat_row_major(self.size(), data.clone())`
-    (mod.rs:1286-1296, 1493-1497) -/
+    (mod.rs:1302-1312, 1514-1518) -/
 def clone (m : Matrix α) : Outcome (Matrix α) :=
   match fromFlatRowMajor m.rows m.columns m.data with
   | some c => .ok c
@@ -246,7 +246,7 @@ def retain (m : Matrix α) (rows columns : Slice) : Res α :=
     | ⟨r, none⟩ => ⟨r, none⟩
     | ⟨_, some k⟩ => ⟨m, some k⟩
 
-/-! ### transpose / transpose_mut (mod.rs:1015-1058), from_fn (mod.rs:242-254) -/
+/-! ### transpose / transpose_mut (mod.rs:1031-1074), from_fn (mod.rs:242-254) -/
 
 /-- the `for [r, c] in iterator { data.push(producer((r, c))) }` loop of `from_fn` -/
 def fromFnLoop (producer : Nat → Nat → Outcome α) : List (Nat × Nat) → Outcome (List α)
@@ -306,7 +306,7 @@ def transposeMut (m : Matrix α) : Res α :=
     | .panic k => ⟨m, some k⟩
   else transposeMutLoop (indexPairs m.rows m.columns) m
 
-/-! ### map_mut / map_mut_with_index (mod.rs:1252-1268) -/
+/-! ### map_mut / map_mut_with_index (mod.rs:1268-1284) -/
 
 /-- `map_mut`: `for value in self.data.iter_mut() { *value = f(value.clone()) }` -/
 def mapMut (m : Matrix α) (f : α → α) : Res α :=
